@@ -35,6 +35,7 @@ import (
 
 type outcome struct {
 	enc      types.Value
+	doc      types.Value // the document that was decoded (enc, or its JSON round trip)
 	encOK    bool
 	encS     string
 	jsonS    string // the document after the JSON round trip (mode js)
@@ -75,6 +76,11 @@ func throughJSON(doc types.Value) (types.Value, error) {
 // convert encodes v, optionally sends the document through JSON, decodes it into a fresh value
 // of type dst and re-encodes that. Every call into the repository runs under recover.
 func convert(v reflect.Value, dst *ty, viaJSON bool) (o outcome) {
+	return convertTo(v, dst, viaJSON, false)
+}
+
+// convertTo: iface = decode into a `var s spec.Spec` (dst describes spec.Unstructured).
+func convertTo(v reflect.Value, dst *ty, viaJSON, iface bool) (o outcome) {
 	stage := "encode"
 	defer func() {
 		if r := recover(); r != nil {
@@ -104,16 +110,34 @@ func convert(v reflect.Value, dst *ty, viaJSON bool) (o outcome) {
 		o.jsonS = lib.EncodeVal(doc)
 	}
 	stage = "decode"
-	tgt := reflect.New(dst.rt)
-	if err := types.Unmarshal(doc, tgt.Interface()); err != nil {
-		o.errClass, o.errText = errClass(err), err.Error()
-		return
+	o.doc = doc
+	var tgt reflect.Value
+	if iface {
+		var s spec.Spec
+		if err := types.Unmarshal(doc, &s); err != nil {
+			o.errClass, o.errText = errClass(err), err.Error()
+			return
+		}
+		u, ok := s.(*spec.Unstructured)
+		if !ok || u == nil {
+			o.errClass, o.errText = "other", fmt.Sprintf("decoding into a spec.Spec gave a %T", s)
+			return
+		}
+		tgt = reflect.ValueOf(u)
+	} else {
+		tgt = reflect.New(dst.rt)
+		if err := types.Unmarshal(doc, tgt.Interface()); err != nil {
+			o.errClass, o.errText = errClass(err), err.Error()
+			return
+		}
 	}
 	o.dec, o.decOK, o.decS = tgt.Elem(), true, showDecoded(tgt.Elem())
 	stage = "re-encode"
 	var back any
 	if tgt.Elem().Kind() == reflect.Interface && tgt.Elem().IsNil() {
 		back = nil
+	} else if iface {
+		back = tgt.Interface()
 	} else {
 		back = tgt.Elem().Interface()
 	}
@@ -179,13 +203,22 @@ func hasFloat32(doc types.Value) bool {
 // ------------------------------------------------------------------ the property, checked directly
 
 type tcase struct {
-	op  string // rt | js | as
-	src *ty
-	dst *ty
-	v   reflect.Value
+	op    string // rt | js | as
+	src   *ty
+	dst   *ty
+	v     reflect.Value
+	iface bool // op as: the target is a `var s spec.Spec` (written `ai <type> <value>`; dst describes spec.Unstructured)
 }
 
 func (tc tcase) opLine() string {
+	if tc.iface {
+		return strings.TrimSpace("ai " + tc.src.String() + " " + showStr(tc.v))
+	}
+	return tc.modelLine()
+}
+
+// modelLine: the line the model driver reads (a spec.Spec target is a spec.Unstructured target for the model).
+func (tc tcase) modelLine() string {
 	s := strings.TrimSpace(tc.op + " " + tc.src.String() + " " + showStr(tc.v))
 	if tc.op == "as" {
 		s += " " + tc.dst.String()
@@ -240,6 +273,11 @@ func check(tc tcase, o outcome) []lib.OracleFail {
 	pre := ""
 	if tc.op == "js" {
 		pre = "json-"
+	}
+	if o.decOK && o.panicked == "" && o.doc != nil {
+		if class, what := again(tc, o, "right away"); class != "" {
+			add(class, what)
+		}
 	}
 	if tc.op == "as" {
 		// a conversion between different types (a foreign document form, a spec conversion): an error is a legitimate
@@ -405,7 +443,7 @@ func (g *G) specValue(open bool) reflect.Value {
 	return v
 }
 
-func specOracle(c *lib.Ctx, g *G, sc *lib.Script) []lib.OracleFail {
+func specOracle(c *lib.Ctx, g *G, sc *lib.Script, h *secondUse) []lib.OracleFail {
 	var fails []lib.OracleFail
 	s := scheme.New()
 	s.AddKnownType(kindTyped, &typedSpec{})
@@ -494,11 +532,46 @@ func specOracle(c *lib.Ctx, g *G, sc *lib.Script) []lib.OracleFail {
 		if !types.Equal(d1, d3) {
 			add("spec-roundtrip-differs", "typed → unstructured → typed encodes differently: "+lib.EncodeVal(d3)+" vs "+lib.EncodeVal(d1))
 		}
+		// the generic hop through the decoder pkg/spec registers for a spec.Spec INTERFACE target (what the
+		// stores and loaders use): typed → document → `var s spec.Spec` → document → typed. The decoder is one
+		// object for the whole process; this loop sends document after document through it, and every result is
+		// looked at again (secondUse) after the following ones were decoded.
+		tci := tcase{op: "as", src: st, dst: ut, v: v, iface: true}
+		oi := convertTo(v, ut, false, true)
+		c.Hit("spec-interface-target")
+		addi := func(class, what string) {
+			fails = append(fails, lib.OracleFail{Class: class, What: what, Replay: tci.opLine()})
+		}
+		switch {
+		case oi.panicked != "":
+			addi("spec-panic", "typed → document → spec.Spec panicked during "+oi.panicked)
+		case !oi.encOK || !oi.decOK:
+			addi("spec-error", "typed → document → spec.Spec failed with "+oi.errClass+": "+oi.errText)
+		default:
+			if !types.Equal(oi.enc, oi.re) || oi.encS != oi.reS {
+				addi("spec-document-differs", "the spec decoded into a spec.Spec encodes to "+oi.reS+", it was decoded from "+oi.encS)
+			}
+			back2 := reflect.New(v.Type())
+			if p := lib.Safe(func() {
+				if err := spec.As(oi.dec.Addr().Interface().(spec.Spec), back2.Interface().(spec.Spec)); err != nil {
+					addi("spec-error", "spec.Spec → typed failed: "+err.Error())
+					return
+				}
+				if d4, _ := types.Marshal(back2.Interface()); !types.Equal(d1, d4) {
+					addi("spec-roundtrip-differs", "typed → spec.Spec → typed encodes differently: "+lib.EncodeVal(d4)+" vs "+lib.EncodeVal(d1))
+				}
+			}); p != "" {
+				addi("spec-panic", "spec.Spec → typed panicked: "+p)
+			}
+		}
+		fails = append(fails, check(tci, oi)...)
+		h.note(tci, oi)
 		// correspondence lines: both directions on the model
 		if sc != nil && !strings.Contains(replay, "ptr time") {
 			o := convert(v, ut, false)
 			sc.Begin()
 			sc.Op(replay, o.line(false))
+			sc.Op(replay, oi.line(false)) // the interface target is an Unstructured target for the model
 			if o.decOK {
 				tc2 := tcase{op: "as", src: ut, dst: st, v: o.dec}
 				o2 := convert(o.dec, st, false)
@@ -561,7 +634,7 @@ func timeText(c *lib.Ctx, g *G, sc *lib.Script) []lib.OracleFail {
 
 func parseCase(line string) (tcase, error) {
 	f := strings.Fields(line)
-	if len(f) == 0 || (f[0] != "rt" && f[0] != "js" && f[0] != "as") {
+	if len(f) == 0 || (f[0] != "rt" && f[0] != "js" && f[0] != "as" && f[0] != "ai") {
 		return tcase{}, fmt.Errorf("unknown operation in %q", line)
 	}
 	p := &toks{t: f[1:]}
@@ -574,7 +647,13 @@ func parseCase(line string) (tcase, error) {
 		return tcase{}, err
 	}
 	tc := tcase{op: f[0], src: st, dst: st, v: v}
-	if f[0] == "as" {
+	if f[0] == "ai" {
+		// the target is a `var s spec.Spec`
+		tc.op, tc.iface = "as", true
+		if tc.dst, err = tyOf(reflect.TypeOf(spec.Unstructured{})); err != nil {
+			return tcase{}, err
+		}
+	} else if f[0] == "as" {
 		if tc.dst, err = parseTy(p); err != nil {
 			return tcase{}, err
 		}
@@ -588,7 +667,7 @@ func parseCase(line string) (tcase, error) {
 // ------------------------------------------------------------------ Run
 
 func Run(c *lib.Ctx) {
-	c.Rule = "one case = one (type, value) pair: the type is generated over the modelled universe (depth ≤ 4; structs built with reflect.StructOf carrying json tags, omitempty, inline struct, inline map, ignored fields), the value over it with boundary numbers, nils at every nullable position and arbitrary dynamic values in `any`; run as rt (direct), js (through JSON) or as (typed spec ↔ spec.Unstructured). A case is non-trivial when its type is composite or open; distinct by the full operation line (type + value)"
+	c.Rule = "one case = one (type, value) pair: the type is generated over the modelled universe (depth ≤ 4; structs built with reflect.StructOf carrying json tags, omitempty, inline struct, inline map, ignored fields), the value over it with boundary numbers, nils at every nullable position and arbitrary dynamic values in `any`; run as rt (direct), js (through JSON), as (typed spec ↔ spec.Unstructured) or ai (typed spec → document → `var s spec.Spec`, the decoder pkg/spec registers for the interface); every document is decoded into a fresh target again right away and once more after 3 later cases (second use of the process-global decoders). A case is non-trivial when its type is composite or open; distinct by the full operation line (type + value)"
 	c.Assumptions = []string{
 		"field aliases: explicit json names, or – for fields whose tag has no name part – the default alias, which the harness computes with its own snake_case implementation (ASCII identifiers) and tells the model; a different alias on the Go side is a difference",
 		"inline-map keys are disjoint from the aliases of the enclosing struct; a struct has at most one inline map and inline structs contain none (C16 well-formedness, GoType.wf)",
@@ -596,6 +675,7 @@ func Run(c *lib.Ctx) {
 		"maps behave as dictionaries in Range order (C15) and Equal/Compare/Hash are lawful (C14)",
 		"named types: a fixed family of declared named types (one per scalar kind and width, named []byte, slice, map, array, struct) appears as field type, map value, pointer target and inside any; the model treats `named T` as T (a named type encodes like its underlying type)",
 		"decode history: foreign document forms (a list of numbers or base64 text for []byte, milliseconds or RFC 3339 text for a time, numbers of another kind, decimal text …) are decoded into typed targets on the same process-global types.Decoder, interleaved with the round trips; every such decode is compared with the model's decode and followed by round trips of the target type",
+		"second use: every decoded document is decoded again into a fresh target at once and after 3 later cases; the results must show and re-encode alike and share no memory (pointer targets, map headers, slice backing arrays; time.Time's *Location and zero-size objects excepted), and the first result must be unchanged after the later decodes",
 		"JSON: integers within ±2^53, finite floats, valid UTF-8 text (guards of C16.roundtrip_json); js lines within the guards and without Float32 values are compared with the model's jsonForm + decode, the others are checked by the oracle only",
 		"omitempty: Go tests reflect.Value.IsZero first and then Equal(encoding, encoding of the zero value); the model has only the second test (a zero value encodes like the zero value)",
 	}
@@ -614,9 +694,11 @@ func Run(c *lib.Ctx) {
 			}
 		}
 	}
+	h := &secondUse{c: c, report: addFails}
 	run := func(tc tcase) {
-		o := convert(tc.v, tc.dst, tc.op == "js")
-		line := tc.opLine()
+		o := convertTo(tc.v, tc.dst, tc.op == "js", tc.iface)
+		defer func() { h.note(tc, o) }()
+		line := tc.modelLine()
 		if tc.src.modelled() && !strings.Contains(line, ": ptr time") && !strings.Contains(line, " ptr time") && (tc.op != "js" || jsonModelled(o)) {
 			sc.Begin()
 			sc.Op(line, o.line(tc.op == "js"))
@@ -663,6 +745,7 @@ func Run(c *lib.Ctx) {
 			c.Hit("corpus")
 			run(tc)
 		}
+		h.flush()
 	}
 	n := c.Scale(1500, 40000)
 	for i := 0; i < n; i++ {
@@ -696,9 +779,14 @@ func Run(c *lib.Ctx) {
 			c.Sample(map[string]any{"op": tc.opLine()})
 		}
 	}
+	h.flush()
 	g.json = false
 	addFails(timeText(c, g, sc))
-	addFails(specOracle(c, g, sc))
+	addFails(specOracle(c, g, sc, h))
+	h.flush()
+	if sharedBytesSeen > 0 {
+		c.Hit("bytes-in-any-is-the-documents-array(observation)")
+	}
 	if os.Getenv("VERIF_DEBUG") != "" {
 		for _, f := range fails {
 			fmt.Fprintf(os.Stderr, "FAIL [%s] %s\n    %s\n", f.Class, f.What, strings.ReplaceAll(f.Replay, "\n", "\n    "))
